@@ -115,6 +115,15 @@ pub fn main(args: &[String]) {
             code = 77;
             break;
         }
+        if t[0] == "crash" {
+            // arm a process death inside the operation that follows (hook H1): `_exit(78)` immediately
+            // before its n-th I/O event of the given kind
+            walrus_rust::wal::verif_hooks::arm_fault(t[1].parse().unwrap(), t[2].parse().unwrap(), true);
+            fault_armed = true;
+            writeln!(out, "ok").unwrap();
+            out.flush().unwrap();
+            continue;
+        }
         if t[0] == "fault" {
             // arm an injected I/O fault for the operation that follows (hook H1)
             walrus_rust::wal::verif_hooks::arm_fault(t[1].parse().unwrap(), t[2].parse().unwrap(), false);
